@@ -1,6 +1,769 @@
-//! C08 — stub: correspondence harness not built yet.
+//! C08 — fast fields return exactly the values that were indexed.
+//!
+//! Sections (each case = one forked SplitMix64 seed, replayable from `{"kind","case_seed"}`):
+//!  * `bitpack`  tantivy-bitpacker `BitPacker`/`BitUnpacker` vs `Model/Columnar/BitPacker.lean`
+//!  * `codec`    `serialize_u64_based_column_values` with each codec forced / `load_…` vs `Codec.lean`
+//!  * `optidx`   optional index rank/select/contains vs brute force and `OptionalIndex.lean`
+//!  * `columnar` `ColumnarWriter -> serialize -> ColumnarReader`, all types and cardinalities
+//!  * `merge`    `merge_columnar` Stack / Shuffled (deletes, differing column sets, coercion)
+//!  * `tantivy`  `SegmentReader::fast_fields()` after indexing / deleting / merging
+//! Oracle violations (implementation alone) and model disagreements are reported separately.
+use crate::model::{hex, nat_list, parse_nat_list, unhex};
+use crate::rng::Rng;
 use crate::Ctx;
+use serde_json::{json, Value};
+use std::panic::{catch_unwind, AssertUnwindSafe};
+use tantivy_bitpacker::{BitPacker, BitUnpacker, BlockedBitpacker};
+use tantivy_columnar::column_index::{
+    open_column_index, serialize_column_index, SerializableColumnIndex, SerializableOptionalIndex, Set,
+};
+use tantivy_columnar::column_values::{
+    load_u64_based_column_values, serialize_u64_based_column_values, CodecType,
+};
+use tantivy_columnar::{ColumnIndex, MonotonicallyMappableToU64, Version};
+use tantivy_common::OwnedBytes;
+
+#[path = "c08_columnar.rs"]
+mod columnar_part;
+#[path = "c08_tantivy.rs"]
+mod tantivy_part;
+
+pub(crate) const ELEMENTS_PER_BLOCK: u32 = 65_536; // cross-checked against Gen by `consts` below
+pub(crate) const DENSE_BLOCK_THRESHOLD: u32 = 5_120;
+pub(crate) const BLOCKWISE_BLOCK: usize = 512;
+
+pub(crate) fn oracle(ctx: &mut Ctx, key: &str, what: String, case: &Value) {
+    ctx.report.violation("oracle", key, what, case.clone());
+}
+pub(crate) fn modelv(ctx: &mut Ctx, key: &str, what: String, case: &Value) {
+    ctx.report.violation("model", key, what, case.clone());
+}
+
+/// boundary-biased size
+pub(crate) fn pick_len(rng: &mut Rng, big_ok: bool) -> usize {
+    let small = [0usize, 1, 2, 3, 7, 8, 9, 31, 32, 33, 63, 64, 65, 127, 128, 129, 255, 256, 257, 511, 512, 513, 1023, 1024, 1025, 1535, 1536, 1537];
+    match rng.below(20) {
+        0..=9 => *rng.pick(&small),
+        10..=15 => rng.usize_below(2000),
+        16..=17 => 2000 + rng.usize_below(4000),
+        18 if big_ok => *rng.pick(&[5119usize, 5120, 5121, 65_535, 65_536, 65_537]),
+        19 if big_ok => 65_000 + rng.usize_below(6000),
+        _ => rng.usize_below(600),
+    }
+}
+
+/// indices to probe: all when small, else boundaries + random
+pub(crate) fn probe_indices(rng: &mut Rng, n: usize, all_below: usize, extra: usize) -> Vec<usize> {
+    if n <= all_below {
+        return (0..n).collect();
+    }
+    let mut v: Vec<usize> = vec![0, 1, n - 1, n - 2, n / 2];
+    for b in [64usize, 512, 1024, 5120, 65_536] {
+        for k in 1..=3 {
+            for d in [-1i64, 0, 1] {
+                let x = (b * k) as i64 + d;
+                if x >= 0 && (x as usize) < n {
+                    v.push(x as usize);
+                }
+            }
+        }
+    }
+    for _ in 0..extra {
+        v.push(rng.usize_below(n));
+    }
+    v.sort();
+    v.dedup();
+    v
+}
+
+/// uniform below a random power of two `< 2^max_bits`
+pub(crate) fn p2(rng: &mut Rng, max_bits: u64) -> u64 {
+    let s = rng.below(max_bits);
+    rng.below(1 << s)
+}
+
+// ------------------------------------------------------------------------------------------
+// A. bit packer
+// ------------------------------------------------------------------------------------------
+fn valid_width(rng: &mut Rng) -> u8 {
+    match rng.below(10) {
+        0 => 0,
+        1 => 1,
+        2 => 56,
+        3 => 64,
+        4 => *rng.pick(&[7u8, 8, 9, 15, 16, 17, 31, 32, 33, 55]),
+        _ => {
+            let w = rng.below(58) as u8;
+            if w == 57 { 64 } else { w }
+        }
+    }
+}
+
+fn val_of_width(rng: &mut Rng, w: u8) -> u64 {
+    let max = if w == 64 { u64::MAX } else if w == 0 { 0 } else { (1u64 << w) - 1 };
+    match rng.below(6) {
+        0 => 0,
+        1 => max,
+        2 => max / 2,
+        _ => {
+            if max == u64::MAX { rng.next_u64() } else { rng.next_u64() % (max + 1) }
+        }
+    }
+}
+
+fn case_bitpack(ctx: &mut Ctx, seed: u64, case: &Value) {
+    let mut rng = Rng(seed);
+    let w = valid_width(&mut rng);
+    let n = pick_len(&mut rng, false).min(3000);
+    let vals: Vec<u64> = (0..n).map(|_| val_of_width(&mut rng, w)).collect();
+    let mut data: Vec<u8> = vec![];
+    let mut bp = BitPacker::new();
+    for &v in &vals {
+        bp.write(v, w, &mut data).unwrap();
+    }
+    bp.close(&mut data).unwrap();
+    ctx.report.count(&format!("bitpack:width-class:{}", match w { 0 => "0", 1..=8 => "1-8", 9..=32 => "9-32", 33..=56 => "33-56", _ => "64" }));
+    ctx.report.case(&format!("bitpack|{w}|{n}|{}", crate::report::fnv(&data)), n > 0 && w > 0);
+    let expected_len = (n * w as usize).div_ceil(8);
+    if data.len() != expected_len {
+        oracle(ctx, "C08:bitpack-length", format!("width {w}, {n} values: {} bytes written, expected {expected_len}", data.len()), case);
+    }
+    let un = BitUnpacker::new(w);
+    for (i, &v) in vals.iter().enumerate() {
+        let got = un.get(i as u32, &data);
+        if got != v {
+            oracle(ctx, "C08:bitpack-roundtrip", format!("width {w}, {n} values: get({i}) = {got}, written {v}"), case);
+            return;
+        }
+    }
+    // range lookup on the packed data
+    if n > 0 {
+        let a = val_of_width(&mut rng, w);
+        let b = val_of_width(&mut rng, w);
+        let (lo, hi) = (a.min(b), a.max(b));
+        let s = rng.usize_below(n);
+        let e = s + rng.usize_below(n - s + 1);
+        let mut pos = vec![];
+        un.get_ids_for_value_range(lo..=hi, s as u32..e as u32, &data, &mut pos);
+        let brute: Vec<u32> = (s..e).filter(|&i| vals[i] >= lo && vals[i] <= hi).map(|i| i as u32).collect();
+        if pos != brute {
+            oracle(ctx, "C08:bitpack-range-lookup", format!("width {w}: get_ids_for_value_range({lo}..={hi}, {s}..{e}) returned {} ids, brute force {}", pos.len(), brute.len()), case);
+        }
+    }
+    // model: same bytes, same reads
+    let m = ctx.model.ask(&format!("C08 pack {w} {}", nat_list(&vals)));
+    if m != hex(&data) {
+        modelv(ctx, "C08:bitpack-bytes", format!("width {w}, {n} values: BitPacker bytes differ from the model (real {} bytes)", data.len()), case);
+        return;
+    }
+    let idxs = probe_indices(&mut rng, n, 400, 100);
+    let m = ctx.model.ask(&format!("C08 unpack {w} {} {}", hex(&data), nat_list(&idxs)));
+    let exp: Vec<u64> = idxs.iter().map(|&i| vals[i]).collect();
+    if m != nat_list(&exp) {
+        modelv(ctx, "C08:bitunpack-get", format!("width {w}: model BitUnpacker::get on the real bytes differs from the written values"), case);
+    }
+    // compute_num_bits
+    let x = val_of_width(&mut rng, w);
+    let real_bits = tantivy_bitpacker::compute_num_bits(x);
+    let mb = ctx.model.ask(&format!("C08 numbits {x}"));
+    if mb != real_bits.to_string() {
+        modelv(ctx, "C08:compute-num-bits", format!("compute_num_bits({x}) = {real_bits}, model {mb}"), case);
+    }
+    if real_bits < 64 && (x >> real_bits) != 0 {
+        oracle(ctx, "C08:compute-num-bits-too-small", format!("compute_num_bits({x}) = {real_bits} cannot hold the value"), case);
+    }
+    // BlockedBitpacker (128-value blocks) round trip
+    if n > 0 && rng.chance(1, 3) {
+        let mut bb = BlockedBitpacker::new();
+        for &v in &vals {
+            bb.add(v);
+        }
+        if rng.chance(1, 2) {
+            bb.flush();
+        }
+        for (i, &v) in vals.iter().enumerate() {
+            if bb.get(i) != v {
+                oracle(ctx, "C08:blocked-bitpacker-roundtrip", format!("BlockedBitpacker get({i}) = {}, added {v}", bb.get(i)), case);
+                break;
+            }
+        }
+    }
+}
+
+// ------------------------------------------------------------------------------------------
+// B. u64 codecs
+// ------------------------------------------------------------------------------------------
+pub(crate) fn gen_u64s(rng: &mut Rng, n: usize) -> (Vec<u64>, &'static str) {
+    let kind = rng.below(12);
+    let base = match rng.below(5) { 0 => 0u64, 1 => u64::MAX - 5_000_000_000, 2 => 1u64 << 63, 3 => (1u64 << 63) - 3_000_000, _ => rng.next_u64() >> rng.below(64) };
+    let name;
+    let v: Vec<u64> = match kind {
+        0 => { name = "constant"; vec![base; n] }
+        1 => { name = "linear-inc"; let step = 1 + rng.below(1000); (0..n).map(|i| base.wrapping_add(step.wrapping_mul(i as u64)) ).collect() }
+        2 => { name = "linear-dec"; let step = 1 + rng.below(1000); let top = base.max(step * n as u64 + 1); (0..n).map(|i| top - step * i as u64).collect() }
+        3 => { name = "noisy-linear"; let step = 1 + rng.below(100_000); let noise = 1 + p2(rng, 20); let b = base / 2; (0..n).map(|i| b + step * i as u64 + rng.below(noise)).collect() }
+        4 => { name = "random"; (0..n).map(|_| rng.next_u64()).collect() }
+        5 => { name = "random-small"; let m = 1 + (1 + p2(rng, 40) * 2); (0..n).map(|_| rng.below(m)).collect() }
+        6 => { name = "extremes"; (0..n).map(|_| *rng.pick(&[0u64, 1, u64::MAX, u64::MAX - 1, 1 << 63, (1 << 63) - 1, 1 << 56, (1 << 56) - 1, (1 << 57) + 1])).collect() }
+        7 => { name = "gcd"; let g = *rng.pick(&[2u64, 3, 10, 1000, 1_000_000_000, 1 << 20, (1 << 40) + 7]); let b = base % 1_000_000; let m = 1 + rng.below(5000); (0..n).map(|_| b + g * rng.below(m)).collect() }
+        8 => { name = "two-values"; let a = rng.next_u64(); let b = rng.next_u64(); (0..n).map(|_| if rng.chance(1, 2) { a } else { b }).collect() }
+        9 => { name = "piecewise-linear"; let mut cur = base / 4; let mut step = rng.below(1000); (0..n).map(|i| { if i % 512 == 0 { step = rng.below(100_000); } cur = cur.wrapping_add(step); cur }).collect() }
+        10 => { name = "wrap-around-linear"; let step = 1 + rng.below(1 << 30); (0..n).map(|i| (u64::MAX - 1000).wrapping_add(step.wrapping_mul(i as u64))).collect() }
+        _ => { name = "sorted-random"; let mut v: Vec<u64> = (0..n).map(|_| rng.next_u64() >> 8).collect(); v.sort(); v }
+    };
+    (v, name)
+}
+
+fn codec_code(c: CodecType) -> u8 {
+    match c { CodecType::Bitpacked => 0, CodecType::Linear => 1, CodecType::BlockwiseLinear => 2 }
+}
+
+/// model decode of real column-values bytes at `idxs`; returns (codec, min, max, gcd, rows, values)
+pub(crate) fn model_decode(ctx: &mut Ctx, bytes: &[u8], idxs: &[usize]) -> Option<(u64, u64, u64, u64, u64, Vec<u64>)> {
+    let r = ctx.model.ask(&format!("C08 decode {} {}", hex(bytes), nat_list(idxs)));
+    let (head, vals) = r.split_once(';')?;
+    let h: Vec<u64> = head.split(' ').map(|t| t.parse().ok()).collect::<Option<_>>()?;
+    if h.len() != 5 {
+        return None;
+    }
+    Some((h[0], h[1], h[2], h[3], h[4], parse_nat_list(vals)?))
+}
+
+fn case_codec(ctx: &mut Ctx, seed: u64, case: &Value) {
+    let mut rng = Rng(seed);
+    let n = pick_len(&mut rng, true);
+    let (vals, dist) = gen_u64s(&mut rng, n);
+    let codecs: Vec<CodecType> = match rng.below(6) {
+        0 => vec![CodecType::Bitpacked],
+        1 => vec![CodecType::Linear],
+        2 => vec![CodecType::BlockwiseLinear],
+        3 => vec![CodecType::Bitpacked, CodecType::Linear],
+        4 => vec![CodecType::Bitpacked, CodecType::BlockwiseLinear],
+        _ => vec![CodecType::Bitpacked, CodecType::Linear, CodecType::BlockwiseLinear],
+    };
+    let mut out: Vec<u8> = vec![];
+    let res = serialize_u64_based_column_values::<u64>(&&vals[..], &codecs, &mut out);
+    let canon = format!("codec|{dist}|{n}|{:?}|{}", codecs, crate::report::fnv(&nat_list(&vals).into_bytes()));
+    ctx.report.case(&canon, n >= 2);
+    if res.is_err() {
+        // only the linear codec alone on fewer than 512 values is not applicable
+        let expected_na = codecs == vec![CodecType::Linear] && n < BLOCKWISE_BLOCK;
+        ctx.report.count("codec:not-applicable");
+        if !expected_na {
+            oracle(ctx, "C08:codec-serialize-error", format!("{dist} x{n} with {:?}: serialize failed", codecs), case);
+        } else {
+            let m = ctx.model.ask(&format!("C08 encode 1 {}", nat_list(&vals)));
+            if m != "none" {
+                modelv(ctx, "C08:linear-applicability", format!("real linear codec not applicable on {n} values, model encodes"), case);
+            }
+        }
+        return;
+    }
+    let chosen = out[0];
+    ctx.report.count(&format!("codec:chosen:{}", ["bitpacked", "linear", "blockwise"][chosen.min(2) as usize]));
+    ctx.report.count(&format!("codec:dist:{dist}"));
+    if !codecs.iter().any(|c| codec_code(*c) == chosen) {
+        oracle(ctx, "C08:codec-not-in-list", format!("codec byte {chosen} not among {:?}", codecs), case);
+    }
+    let col = match load_u64_based_column_values::<u64>(OwnedBytes::new(out.clone())) {
+        Ok(c) => c,
+        Err(e) => { oracle(ctx, "C08:codec-load-error", format!("{dist} x{n}: load failed: {e}"), case); return; }
+    };
+    if col.num_vals() as usize != n {
+        oracle(ctx, "C08:codec-num-vals", format!("{dist}: num_vals {} for {n} values (codec {chosen})", col.num_vals()), case);
+        return;
+    }
+    let (mn, mx) = (col.min_value(), col.max_value());
+    for (i, &v) in vals.iter().enumerate() {
+        let got = col.get_val(i as u32);
+        if got != v {
+            oracle(ctx, "C08:codec-value", format!("{dist} x{n}, codec {chosen}: get_val({i}) = {got}, indexed {v}"), case);
+            return;
+        }
+        if v < mn || v > mx {
+            oracle(ctx, "C08:codec-minmax-bound", format!("{dist} x{n}, codec {chosen}: value {v} outside [min_value {mn}, max_value {mx}]"), case);
+            return;
+        }
+    }
+    if n > 0 {
+        // iter / get_range / get_vals
+        let it: Vec<u64> = col.iter().collect();
+        if it != vals {
+            oracle(ctx, "C08:codec-iter", format!("{dist} x{n}, codec {chosen}: iter() differs from the indexed values"), case);
+        }
+        let s = rng.usize_below(n);
+        let len = rng.usize_below((n - s).min(300) + 1);
+        let mut buf = vec![0u64; len];
+        col.get_range(s as u64, &mut buf);
+        if buf[..] != vals[s..s + len] {
+            oracle(ctx, "C08:codec-get-range", format!("{dist} x{n}, codec {chosen}: get_range({s}, {len}) differs"), case);
+        }
+        // value-range lookup = brute force
+        for _ in 0..3 {
+            let a = if rng.chance(1, 2) { vals[rng.usize_below(n)] } else { rng.next_u64() >> rng.below(64) };
+            let b = if rng.chance(1, 2) { vals[rng.usize_below(n)] } else { a.wrapping_add(p2(&mut rng, 40)) };
+            let (lo, hi) = if rng.chance(1, 10) { (a.max(b), a.min(b)) } else { (a.min(b), a.max(b)) };
+            let s = rng.usize_below(n);
+            let e = s + rng.usize_below(n - s + 1);
+            let mut pos = vec![];
+            col.get_row_ids_for_value_range(lo..=hi, s as u32..e as u32, &mut pos);
+            let brute: Vec<u32> = (s..e).filter(|&i| vals[i] >= lo && vals[i] <= hi).map(|i| i as u32).collect();
+            if pos != brute {
+                // known finding: a non-empty query range entirely below the column minimum is clamped
+                // to [0, 0] by `transform_range_before_linear_transformation` (saturating_sub) and
+                // therefore matches exactly the rows holding the minimum (bitpacked codec only)
+                let min_rows: Vec<u32> = (s..e).filter(|&i| vals[i] == mn).map(|i| i as u32).collect();
+                let key = if chosen == 0 && lo <= hi && hi < mn && pos == min_rows { "C08:range-below-min-returns-min-rows" } else { "C08:codec-range-lookup" };
+                oracle(ctx, key, format!("{dist} x{n}, codec {chosen}: get_row_ids_for_value_range({lo}..={hi}, {s}..{e}) = {} rows, brute force {} (column min {mn}, max {mx})", pos.len(), brute.len()), case);
+                if key == "C08:codec-range-lookup" { break; }
+            }
+        }
+    }
+    // model: decode the real bytes (cross-decoding), exact stats
+    let idxs = probe_indices(&mut rng, n, 1200, 150);
+    match model_decode(ctx, &out, &idxs) {
+        Some((mc, mmin, mmax, _g, rows, mv)) => {
+            let exp: Vec<u64> = idxs.iter().map(|&i| vals[i]).collect();
+            if mc != chosen as u64 || rows != n as u64 || mv != exp {
+                modelv(ctx, "C08:codec-cross-decode", format!("{dist} x{n}, codec {chosen}: model decode of the real bytes differs from the indexed values"), case);
+            } else if (mmin, mmax) != (mn, mx) {
+                modelv(ctx, "C08:codec-stats-header", format!("model header min/max {mmin}/{mmax}, real {mn}/{mx}"), case);
+            }
+        }
+        None => modelv(ctx, "C08:codec-cross-decode", format!("{dist} x{n}, codec {chosen}: model cannot decode the real bytes"), case),
+    }
+    let ms = ctx.model.ask(&format!("C08 stats {}", nat_list(&vals)));
+    let exact_min = vals.iter().copied().min().unwrap_or(0);
+    let exact_max = vals.iter().copied().max().unwrap_or(0);
+    if ms.split(' ').take(2).collect::<Vec<_>>() != vec![exact_min.to_string(), exact_max.to_string()] {
+        modelv(ctx, "C08:model-stats", format!("model stats {ms} vs exact {exact_min} {exact_max}"), case);
+    }
+    if (mn, mx) != (exact_min, exact_max) {
+        ctx.report.count("codec:minmax-not-tight");
+        modelv(ctx, "C08:stats-not-tight", format!("{dist} x{n}: freshly serialized column reports min/max {mn}/{mx}, exact {exact_min}/{exact_max} (StatsCollector model is exact)"), case);
+    }
+    // the other direction: real decoder on model-encoded bytes
+    if n <= 1100 {
+        for c in &codecs {
+            let m = ctx.model.ask(&format!("C08 encode {} {}", codec_code(*c), nat_list(&vals)));
+            if m == "none" {
+                if !(*c == CodecType::Linear && n < BLOCKWISE_BLOCK) {
+                    modelv(ctx, "C08:model-encode", format!("model refuses codec {:?} on {n} values", c), case);
+                }
+                continue;
+            }
+            let bytes = unhex(&m).unwrap_or_default();
+            match load_u64_based_column_values::<u64>(OwnedBytes::new(bytes)) {
+                Ok(c2) => {
+                    let got: Vec<u64> = if c2.num_vals() as usize == n { (0..n).map(|i| c2.get_val(i as u32)).collect() } else { vec![] };
+                    if got != vals {
+                        modelv(ctx, "C08:model-encode-real-decode", format!("{dist} x{n}: real decoder on model-encoded {:?} bytes differs from the values", c), case);
+                    }
+                }
+                Err(_) => modelv(ctx, "C08:model-encode-real-decode", format!("{dist} x{n}: real loader rejects model-encoded {:?} bytes", c), case),
+            }
+        }
+    }
+    // typed views over the same machinery: i64 / f64 / bool through their monotone mappings
+    if n > 0 && n <= 3000 {
+        typed_codec_checks(ctx, &mut rng, &vals, &codecs, case);
+    }
+    if ctx.report.samples.len() < 2 {
+        ctx.report.sample(json!({"section": "codec", "distribution": dist, "rows": n, "codecs": format!("{:?}", codecs), "chosen": chosen, "min": mn, "max": mx, "first_values": vals.iter().take(5).collect::<Vec<_>>()}));
+    }
+}
+
+fn typed_codec_checks(ctx: &mut Ctx, rng: &mut Rng, raw: &[u64], codecs: &[CodecType], case: &Value) {
+    let codecs: Vec<CodecType> = if codecs == [CodecType::Linear] && raw.len() < BLOCKWISE_BLOCK { vec![CodecType::Bitpacked] } else { codecs.to_vec() };
+    // i64
+    let ivals: Vec<i64> = raw.iter().map(|&u| match rng.below(8) { 0 => i64::MIN, 1 => i64::MAX, 2 => 0, 3 => -1, _ => u as i64 }).collect();
+    let mut out = vec![];
+    if serialize_u64_based_column_values::<i64>(&&ivals[..], &codecs, &mut out).is_ok() {
+        match load_u64_based_column_values::<i64>(OwnedBytes::new(out)) {
+            Ok(col) => {
+                for (i, &v) in ivals.iter().enumerate() {
+                    if col.get_val(i as u32) != v || v < col.min_value() || v > col.max_value() {
+                        oracle(ctx, "C08:i64-column-value", format!("i64 column: row {i} = {}, indexed {v}, min {} max {}", col.get_val(i as u32), col.min_value(), col.max_value()), case);
+                        break;
+                    }
+                }
+                let a = ivals[rng.usize_below(ivals.len())];
+                let b = ivals[rng.usize_below(ivals.len())];
+                let (lo, hi) = (a.min(b), a.max(b));
+                let mut pos = vec![];
+                col.get_row_ids_for_value_range(lo..=hi, 0..ivals.len() as u32, &mut pos);
+                let brute: Vec<u32> = (0..ivals.len()).filter(|&i| ivals[i] >= lo && ivals[i] <= hi).map(|i| i as u32).collect();
+                if pos != brute {
+                    oracle(ctx, "C08:i64-range-lookup", format!("i64 range {lo}..={hi}: {} rows, brute force {}", pos.len(), brute.len()), case);
+                }
+            }
+            Err(e) => oracle(ctx, "C08:codec-load-error", format!("i64 column load failed: {e}"), case),
+        }
+    }
+    // f64 (NaN free), incl. ±0, ±inf, subnormals
+    let fvals: Vec<f64> = raw.iter().map(|&u| match rng.below(10) {
+        0 => 0.0, 1 => -0.0, 2 => f64::INFINITY, 3 => f64::NEG_INFINITY, 4 => f64::MIN_POSITIVE / 2.0, 5 => -(u as f64), 6 => f64::MAX, 7 => f64::MIN,
+        _ => { let f = f64::from_bits(u); if f.is_nan() { (u >> 12) as f64 } else { f } }
+    }).collect();
+    let mut out = vec![];
+    if serialize_u64_based_column_values::<f64>(&&fvals[..], &codecs, &mut out).is_ok() {
+        match load_u64_based_column_values::<f64>(OwnedBytes::new(out)) {
+            Ok(col) => {
+                for (i, &v) in fvals.iter().enumerate() {
+                    let g = col.get_val(i as u32);
+                    if g.to_bits() != v.to_bits() || !(v >= col.min_value() && v <= col.max_value()) {
+                        oracle(ctx, "C08:f64-column-value", format!("f64 column: row {i} = {g:?} (bits {:x}), indexed {v:?} (bits {:x}), min {:?} max {:?}", g.to_bits(), v.to_bits(), col.min_value(), col.max_value()), case);
+                        break;
+                    }
+                }
+                let a = fvals[rng.usize_below(fvals.len())];
+                let b = fvals[rng.usize_below(fvals.len())];
+                let (lo, hi) = if a <= b { (a, b) } else { (b, a) };
+                let mut pos = vec![];
+                col.get_row_ids_for_value_range(lo..=hi, 0..fvals.len() as u32, &mut pos);
+                // the lookup works on the total order of the mapping (−0 < +0)
+                let (l, h) = (lo.to_u64(), hi.to_u64());
+                let brute: Vec<u32> = (0..fvals.len()).filter(|&i| { let k = fvals[i].to_u64(); k >= l && k <= h }).map(|i| i as u32).collect();
+                if pos != brute {
+                    oracle(ctx, "C08:f64-range-lookup", format!("f64 range {lo:?}..={hi:?}: {} rows, brute force {}", pos.len(), brute.len()), case);
+                }
+            }
+            Err(e) => oracle(ctx, "C08:codec-load-error", format!("f64 column load failed: {e}"), case),
+        }
+    }
+    // monotone mappings: real vs extracted model, order and inverse on the sampled pairs
+    for k in 0..6.min(raw.len()) {
+        let i = ivals[(k * 7) % ivals.len()];
+        let real = tantivy_common::i64_to_u64(i);
+        let m = ctx.model.ask(&format!("C08 i64_to_u64 {}", i as u64));
+        let back = ctx.model.ask(&format!("C08 u64_to_i64 {real}"));
+        if m != real.to_string() || back != (i as u64).to_string() || tantivy_common::u64_to_i64(real) != i {
+            modelv(ctx, "C08:i64-mapping", format!("i64_to_u64({i}) = {real}, model {m}; inverse {back}"), case);
+        }
+        let f = fvals[(k * 5) % fvals.len()];
+        let real = tantivy_common::f64_to_u64(f);
+        let m = ctx.model.ask(&format!("C08 f64_to_u64 {}", f.to_bits()));
+        let back = ctx.model.ask(&format!("C08 u64_to_f64 {real}"));
+        if m != real.to_string() || back != f.to_bits().to_string() || tantivy_common::u64_to_f64(real).to_bits() != f.to_bits() {
+            modelv(ctx, "C08:f64-mapping", format!("f64_to_u64({f:?}) = {real}, model {m}; inverse {back}"), case);
+        }
+        let f2 = fvals[(k * 11 + 3) % fvals.len()];
+        if (f < f2) && !(tantivy_common::f64_to_u64(f) < tantivy_common::f64_to_u64(f2)) {
+            oracle(ctx, "C08:f64-mapping-not-monotone", format!("{f:?} < {f2:?} but mapped {} >= {}", tantivy_common::f64_to_u64(f), tantivy_common::f64_to_u64(f2)), case);
+        }
+        let i2 = ivals[(k * 13 + 1) % ivals.len()];
+        if (i < i2) != (tantivy_common::i64_to_u64(i) < tantivy_common::i64_to_u64(i2)) {
+            oracle(ctx, "C08:i64-mapping-not-monotone", format!("{i} vs {i2}: order not preserved"), case);
+        }
+    }
+}
+
+// ------------------------------------------------------------------------------------------
+// C. optional index
+// ------------------------------------------------------------------------------------------
+/// `k` distinct sorted positions in `0..len`
+pub(crate) fn choose_sorted(rng: &mut Rng, len: u32, k: u32) -> Vec<u32> {
+    let k = k.min(len);
+    if k == len {
+        return (0..len).collect();
+    }
+    if k * 2 > len {
+        let drop = choose_sorted(rng, len, len - k);
+        let mut out = Vec::with_capacity(k as usize);
+        let mut di = 0;
+        for x in 0..len {
+            if di < drop.len() && drop[di] == x { di += 1; } else { out.push(x); }
+        }
+        return out;
+    }
+    let mut set = std::collections::BTreeSet::new();
+    while (set.len() as u32) < k {
+        set.insert(rng.below(len as u64) as u32);
+    }
+    set.into_iter().collect()
+}
+
+pub(crate) fn gen_optional_rows(rng: &mut Rng) -> (u32, Vec<u32>, String) {
+    let num_rows: u32 = match rng.below(12) {
+        0 => 0,
+        1 => 1,
+        2 => *rng.pick(&[63u32, 64, 65, 511, 512, 513]),
+        3 => *rng.pick(&[ELEMENTS_PER_BLOCK - 1, ELEMENTS_PER_BLOCK, ELEMENTS_PER_BLOCK + 1]),
+        4 => *rng.pick(&[2 * ELEMENTS_PER_BLOCK - 1, 2 * ELEMENTS_PER_BLOCK, 2 * ELEMENTS_PER_BLOCK + 1]),
+        5 => 3 * ELEMENTS_PER_BLOCK + rng.below(70_000) as u32,
+        6 | 7 => rng.below(5000) as u32,
+        _ => rng.below(140_000) as u32,
+    };
+    let mut rows: Vec<u32> = vec![];
+    let mut profile = vec![];
+    let mut start = 0u32;
+    while start < num_rows {
+        let len = (num_rows - start).min(ELEMENTS_PER_BLOCK);
+        let t = DENSE_BLOCK_THRESHOLD;
+        let (k, tag) = match rng.below(12) {
+            0 => (0, "empty"),
+            1 => (1, "one"),
+            2 => (t - 1, "thr-1"),
+            3 => (t, "thr"),
+            4 => (t + 1, "thr+1"),
+            5 => (len, "full"),
+            6 => (len.saturating_sub(1), "full-1"),
+            7 | 8 => (rng.below(t as u64) as u32, "sparse"),
+            9 => (t + rng.below(3000) as u32, "dense-low"),
+            _ => (rng.below(len as u64 + 1) as u32, "any"),
+        };
+        let mut in_block = choose_sorted(rng, len, k);
+        // force mini-block boundary members now and then
+        if rng.chance(1, 3) && len > 130 {
+            for x in [0u32, 63, 64, 127, 128, len - 1] {
+                if let Err(p) = in_block.binary_search(&x) { in_block.insert(p, x); }
+            }
+        }
+        profile.push(format!("{tag}:{}", in_block.len()));
+        rows.extend(in_block.iter().map(|x| x + start));
+        start += len;
+    }
+    (num_rows, rows, profile.join(","))
+}
+
+/// checks one serialized optional index (bytes without the cardinality byte) against the row set
+pub(crate) fn check_optional_index(ctx: &mut Ctx, rng: &mut Rng, oi: &tantivy_columnar::column_index::OptionalIndex, raw: &[u8], num_rows: u32, rows: &[u32], what: &str, case: &Value) {
+    if oi.num_docs() != num_rows || oi.num_non_nulls() as usize != rows.len() {
+        oracle(ctx, "C08:optidx-counts", format!("{what}: num_docs {} (expected {num_rows}), num_non_nulls {} (expected {})", oi.num_docs(), oi.num_non_nulls(), rows.len()), case);
+        return;
+    }
+    let it: Vec<u32> = oi.iter_non_null_docs().collect();
+    if it != rows {
+        let at = it.iter().zip(rows.iter()).position(|(a, b)| a != b).unwrap_or(it.len().min(rows.len()));
+        oracle(ctx, "C08:optidx-iter", format!("{what}: iter_non_null_docs differs from the row set at position {at}"), case);
+        return;
+    }
+    // docs to probe
+    let mut docs: Vec<u32> = vec![];
+    if num_rows > 0 {
+        docs.extend([0, num_rows - 1, num_rows / 2]);
+        for b in [64u32, 128, 512, DENSE_BLOCK_THRESHOLD, ELEMENTS_PER_BLOCK, 2 * ELEMENTS_PER_BLOCK] {
+            for d in [-1i64, 0, 1, 63, 64] {
+                let x = b as i64 + d;
+                if x >= 0 && (x as u32) < num_rows { docs.push(x as u32); }
+            }
+        }
+        for _ in 0..40 { docs.push(rng.below(num_rows as u64) as u32); }
+        for _ in 0..40.min(rows.len()) {
+            let r = rows[rng.usize_below(rows.len())];
+            docs.push(r);
+            if r + 1 < num_rows { docs.push(r + 1); }
+        }
+    }
+    docs.sort();
+    docs.dedup();
+    let brute_rank = |d: u32| rows.partition_point(|&r| r < d) as u32;
+    for &d in &docs {
+        let member = rows.binary_search(&d).is_ok();
+        if oi.contains(d) != member {
+            oracle(ctx, "C08:optidx-contains", format!("{what}: contains({d}) = {}, member = {member}", oi.contains(d)), case);
+            return;
+        }
+        let rk = oi.rank(d);
+        if rk != brute_rank(d) {
+            oracle(ctx, "C08:optidx-rank", format!("{what}: rank({d}) = {rk}, members below = {}", brute_rank(d)), case);
+            return;
+        }
+        let rie = oi.rank_if_exists(d);
+        if rie != if member { Some(brute_rank(d)) } else { None } {
+            oracle(ctx, "C08:optidx-rank-if-exists", format!("{what}: rank_if_exists({d}) = {rie:?}, member = {member}, members below = {}", brute_rank(d)), case);
+            return;
+        }
+        if member && oi.select(rk) != d {
+            oracle(ctx, "C08:optidx-select-rank", format!("{what}: select(rank({d})) = {}", oi.select(rk)), case);
+            return;
+        }
+    }
+    // rank for doc ids at / beyond num_docs
+    for d in [num_rows, num_rows.saturating_add(1), u32::MAX] {
+        if oi.rank(d) as usize != rows.len() {
+            oracle(ctx, "C08:optidx-rank-beyond", format!("{what}: rank({d}) = {} with {} members", oi.rank(d), rows.len()), case);
+        }
+    }
+    let mut ranks: Vec<u32> = vec![];
+    if !rows.is_empty() {
+        let n = rows.len() as u32;
+        ranks.extend([0, n - 1, n / 2]);
+        for b in [64u32, DENSE_BLOCK_THRESHOLD, ELEMENTS_PER_BLOCK] {
+            for d in [-1i64, 0, 1] {
+                let x = b as i64 + d;
+                if x >= 0 && (x as u32) < n { ranks.push(x as u32); }
+            }
+        }
+        for _ in 0..40 { ranks.push(rng.below(n as u64) as u32); }
+        // first / last rank of every block
+        for b in 0..=(num_rows / ELEMENTS_PER_BLOCK) {
+            let p = rows.partition_point(|&r| r < b * ELEMENTS_PER_BLOCK) as u32;
+            if p < n { ranks.push(p); }
+            if p > 0 { ranks.push(p - 1); }
+        }
+    }
+    ranks.sort();
+    ranks.dedup();
+    for &k in &ranks {
+        if oi.select(k) != rows[k as usize] {
+            oracle(ctx, "C08:optidx-select", format!("{what}: select({k}) = {}, {k}-th member = {}", oi.select(k), rows[k as usize]), case);
+            return;
+        }
+    }
+    let mut batch = ranks.clone();
+    oi.select_batch(&mut batch);
+    let exp: Vec<u32> = ranks.iter().map(|&k| rows[k as usize]).collect();
+    if batch != exp {
+        oracle(ctx, "C08:optidx-select-cursor", format!("{what}: select_batch over increasing ranks differs from the members"), case);
+    }
+    // model on the real bytes
+    let r = ctx.model.ask(&format!("C08 optidx {} {} {}", hex(raw), nat_list(&docs), nat_list(&ranks)));
+    let parts: Vec<&str> = r.split(';').collect();
+    let show_opt = |v: Vec<Option<u32>>| if v.is_empty() { "-".to_string() } else { v.iter().map(|o| o.map(|x| x.to_string()).unwrap_or("x".into())).collect::<Vec<_>>().join(",") };
+    let exp_rank = show_opt(docs.iter().map(|&d| Some(brute_rank(d))).collect());
+    let exp_rie = show_opt(docs.iter().map(|&d| if rows.binary_search(&d).is_ok() { Some(brute_rank(d)) } else { None }).collect());
+    let exp_sel = show_opt(ranks.iter().map(|&k| Some(rows[k as usize])).collect());
+    if parts.len() != 4 || parts[0] != format!("{num_rows} {}", rows.len()) || parts[1] != exp_rank || parts[2] != exp_rie || parts[3] != exp_sel {
+        let which = if parts.len() != 4 { "open" } else if parts[0] != format!("{num_rows} {}", rows.len()) { "counts" } else if parts[1] != exp_rank { "rank" } else if parts[2] != exp_rie { "rank_if_exists" } else { "select" };
+        modelv(ctx, "C08:optidx-model", format!("{what}: model {which} on the real optional-index bytes differs (num_rows {num_rows}, {} members)", rows.len()), case);
+    }
+}
+
+fn case_optidx(ctx: &mut Ctx, seed: u64, case: &Value) {
+    let mut rng = Rng(seed);
+    let (num_rows, rows, profile) = gen_optional_rows(&mut rng);
+    let mut out: Vec<u8> = vec![];
+    serialize_column_index(
+        SerializableColumnIndex::Optional(SerializableOptionalIndex { non_null_row_ids: Box::new(&rows[..]), num_rows }),
+        &mut out,
+    ).unwrap();
+    for p in profile.split(',') {
+        ctx.report.count(&format!("optidx:block:{}", p.split(':').next().unwrap_or("")));
+    }
+    ctx.report.case(&format!("optidx|{num_rows}|{}", crate::report::fnv(&nat_list(&rows).into_bytes())), !rows.is_empty() && (rows.len() as u32) < num_rows);
+    let idx = match open_column_index(OwnedBytes::new(out.clone()), Version::V2) {
+        Ok(ColumnIndex::Optional(oi)) => oi,
+        Ok(other) => { oracle(ctx, "C08:optidx-open", format!("optional index opened as {:?}", other.get_cardinality()), case); return; }
+        Err(e) => { oracle(ctx, "C08:optidx-open", format!("open failed: {e}"), case); return; }
+    };
+    check_optional_index(ctx, &mut rng, &idx, &out[1..], num_rows, &rows, &format!("blocks [{profile}]"), case);
+    // byte-exact model encoder on moderate sizes
+    if rows.len() <= 12_000 && rng.chance(1, 2) {
+        let m = ctx.model.ask(&format!("C08 optenc {num_rows} {}", nat_list(&rows)));
+        if m != hex(&out[1..]) {
+            modelv(ctx, "C08:optidx-bytes", format!("serialize_optional_index bytes differ from the model (num_rows {num_rows}, blocks [{profile}])"), case);
+        }
+    }
+    if ctx.report.samples.len() < 3 {
+        ctx.report.sample(json!({"section": "optidx", "num_rows": num_rows, "members": rows.len(), "blocks": profile}));
+    }
+}
+
+// ------------------------------------------------------------------------------------------
+// driver
+// ------------------------------------------------------------------------------------------
+fn run_case(ctx: &mut Ctx, kind: &str, seed: u64) {
+    let case = json!({"kind": kind, "case_seed": seed});
+    let r = catch_unwind(AssertUnwindSafe(|| match kind {
+        "bitpack" => case_bitpack(ctx, seed, &case),
+        "codec" => case_codec(ctx, seed, &case),
+        "optidx" => case_optidx(ctx, seed, &case),
+        "columnar" => columnar_part::case_columnar(ctx, seed, &case),
+        "merge" => columnar_part::case_merge(ctx, seed, &case),
+        "tantivy" => tantivy_part::case_tantivy(ctx, seed, &case),
+        _ => ctx.report.notes.push(format!("unknown case kind {kind}")),
+    }));
+    if let Err(p) = r {
+        let msg = p.downcast_ref::<String>().cloned().or_else(|| p.downcast_ref::<&str>().map(|s| s.to_string())).unwrap_or_default();
+        ctx.report.violation("oracle", &format!("C08:panic-{kind}"), format!("panic in {kind} case: {}", &msg[..msg.len().min(300)]), case);
+    }
+    ctx.report.count(&format!("cases:{kind}"));
+}
+
+fn check_constants(ctx: &mut Ctx) {
+    // the harness' boundary constants are the extracted ones: threshold member counts switch the
+    // block variant exactly where the model (Gen.is_sparse) says
+    let case = json!({"kind": "consts"});
+    for (n, rows) in [(DENSE_BLOCK_THRESHOLD - 1, DENSE_BLOCK_THRESHOLD - 1), (DENSE_BLOCK_THRESHOLD, DENSE_BLOCK_THRESHOLD)] {
+        let rows: Vec<u32> = (0..rows).map(|i| i * 3).collect();
+        let mut out = vec![];
+        serialize_column_index(SerializableColumnIndex::Optional(SerializableOptionalIndex { non_null_row_ids: Box::new(&rows[..]), num_rows: ELEMENTS_PER_BLOCK }), &mut out).unwrap();
+        let m = ctx.model.ask(&format!("C08 optenc {ELEMENTS_PER_BLOCK} {}", nat_list(&rows)));
+        if m != hex(&out[1..]) {
+            modelv(ctx, "C08:threshold-encoding", format!("a block with {n} members is encoded differently by the code and the model (sparse/dense switch)"), &case);
+        }
+    }
+}
+
+/// stored witness of the known finding `C08:range-below-min-returns-min-rows`, replayed first
+fn known_range_below_min(ctx: &mut Ctx) {
+    let case = json!({"kind": "known-range-below-min", "values": [10, 20, 30, 10], "codec": "bitpacked", "range": [0, 5]});
+    let vals: Vec<u64> = vec![10, 20, 30, 10];
+    let mut out = vec![];
+    serialize_u64_based_column_values::<u64>(&&vals[..], &[CodecType::Bitpacked], &mut out).unwrap();
+    let col = load_u64_based_column_values::<u64>(OwnedBytes::new(out)).unwrap();
+    let mut pos = vec![];
+    col.get_row_ids_for_value_range(0..=5, 0..4, &mut pos);
+    ctx.report.case("known-range-below-min", true);
+    if pos == vec![0, 3] {
+        oracle(ctx, "C08:range-below-min-returns-min-rows", "values [10,20,30,10] (bitpacked): get_row_ids_for_value_range(0..=5) returns rows [0, 3] although no value lies in the range".into(), &case);
+    } else if !pos.is_empty() {
+        oracle(ctx, "C08:codec-range-lookup", format!("values [10,20,30,10] (bitpacked): get_row_ids_for_value_range(0..=5) returns {pos:?}"), &case);
+    }
+}
+
+pub fn replay(ctx: &mut Ctx, case: &Value) {
+    let kind = case["kind"].as_str().unwrap_or("").to_string();
+    if kind == "consts" {
+        check_constants(ctx);
+        return;
+    }
+    if kind == "known-range-below-min" {
+        known_range_below_min(ctx);
+        return;
+    }
+    match case["case_seed"].as_u64() {
+        Some(seed) => run_case(ctx, &kind, seed),
+        None => ctx.report.notes.push("replay: case without case_seed".into()),
+    }
+}
 
 pub fn run(ctx: &mut Ctx) {
-    ctx.report.notes.push("C08: harness not built yet".into());
+    ctx.report.rule = "one case = one generated bit-packed sequence / u64 column (distribution x codec list) / optional index \
+        (per-block density profile) / columnar table (typed columns x cardinalities) / merge (inputs x row order) / tantivy index; \
+        distinct = distinct content hash; non-trivial = at least 2 values (codec), a proper non-empty subset of rows (optidx), \
+        a column with an absent or multi-valued row (columnar), at least 2 inputs or a deletion (merge), >= 2 segments or a delete (tantivy)".into();
+    ctx.report.correspondence_obligations = vec![
+        "BitPacker bytes = model pack (byte exact); model BitUnpacker::get on real bytes = values".into(),
+        "compute_num_bits = model".into(),
+        "model decode of real column-values bytes (bitpacked / linear / blockwise) = indexed values; header stats equal".into(),
+        "real decoder on model-encoded column bytes = values".into(),
+        "serialize_optional_index bytes = model optEnc (byte exact, incl. sparse/dense switch at the threshold)".into(),
+        "model rank / rank_if_exists / select on real optional-index bytes = real = brute force".into(),
+        "i64_to_u64 / f64_to_u64 and inverses: real = extracted Gen functions".into(),
+        "column index + values of real columnar files cross-decoded by the model (cardinality, optional index, start offsets, values)".into(),
+        "merge row mapping: read(model mergeShuffled / mergeStacked) = real merged column rows".into(),
+    ];
+    if let Some(case) = ctx.replay.clone() {
+        replay(ctx, &case);
+        return;
+    }
+    check_constants(ctx);
+    known_range_below_min(ctx);
+    let plan: [(&str, u64, u64); 6] = [
+        ("bitpack", 500, 12_000),
+        ("codec", 700, 24_000),
+        ("optidx", 60, 1_500),
+        ("columnar", 260, 9_000),
+        ("merge", 220, 8_000),
+        ("tantivy", 14, 300),
+    ];
+    for (kind, q, t) in plan {
+        let n = ctx.budget(q, t);
+        for _ in 0..n {
+            let seed = ctx.rng.next_u64();
+            run_case(ctx, kind, seed);
+        }
+    }
 }
